@@ -12,7 +12,7 @@
     32 as rnd / 64 as rho'), and the specification's signature is unique. The proof includes the equivalence of the code's
     test on w0 - c s2 with the specification's test on LowBits(w - c s2) (needs ||c s2|| <= beta, proved from the
     challenge weight), the centred-norm reading of the norm check on 32-bit-reduced values, and MakeHint. *)
-From DV Require Import Base MReduce MParams MPoly MPolyvec MPacking MSign MApi PSample PBridge PTape PSignStruct PFrame PSignTotal PKeygen PSignSpec.
+From DV Require Import Base MReduce MParams MPoly MPolyvec MPacking MSign MApi PSample PBridge PTape PSignStruct PFrame PSignTotal PKeygen PSignSpec PBuffers.
 
 Theorem C05_signing_is_the_specification :
   forall (P : params) (xi pk sk sig0 m : list Z) (rand : bool) (tape sig tape' : list Z),
@@ -115,3 +115,13 @@ Theorem C05_rejection_order :
   exists M, sig' = am_sigc M /\ attempt_rejects P sig mu rhoprime mat s1 s2 t0 nonce M cause.
 Proof. exact sign_attempt_retry. Qed.
 Print Assumptions C05_rejection_order.
+
+(** ... and for a caller buffer LONGER than SIGNBYTES: the same signature in the first SIGNBYTES bytes, the excess untouched *)
+Theorem C05_overlong_buffer :
+  forall (P : params) (sig msg sk : list Z) (rand : bool) (tape : list Z),
+  std P -> pSIG P <= zlen sig ->
+  signature P sig msg sk rand tape =
+  (do '(s, t) <- signature P (firstn (Z.to_nat (pSIG P)) sig) msg sk rand tape;
+   Ok (s ++ skipn (Z.to_nat (pSIG P)) sig, t)).
+Proof. exact signature_long_buffer. Qed.
+Print Assumptions C05_overlong_buffer.
